@@ -31,6 +31,10 @@ func asc(a, b Elem) int {
 }
 func desc(a, b Elem) int { return asc(b, a) }
 
+// Comparators that return magnitudes (only the sign is promised to matter).
+func ascMag(a, b Elem) int  { return (a.V - b.V) * 7 }
+func descMag(a, b Elem) int { return (b.V - a.V) * 7 }
+
 // HOp is one step of a heap history.
 type HOp struct {
 	Kind string `json:"k"`
@@ -46,6 +50,7 @@ type HeapCase struct {
 	Data    []int  `json:"data,omitempty"` // NewWithData contents (IDs are -(i+1))
 	Spare   int    `json:"spare,omitempty"`
 	Update  bool   `json:"update,omitempty"` // install an update callback from the start
+	Mag     bool   `json:"mag,omitempty"`    // comparators return scaled differences instead of -1/0/+1
 	Ops     []HOp  `json:"ops"`
 }
 
@@ -294,9 +299,14 @@ func (r *heapRun) callback(e Elem, pos int) {
 
 func (r *heapRun) setCmp(descending bool) {
 	r.descNow = descending
-	if descending {
+	switch {
+	case descending && r.c.Mag:
+		r.cmp = descMag
+	case descending:
 		r.cmp = desc
-	} else {
+	case r.c.Mag:
+		r.cmp = ascMag
+	default:
 		r.cmp = asc
 	}
 }
